@@ -18,10 +18,14 @@ fn show_tok(t: &Token) -> String {
     }
 }
 
+/// `tr.ops` prints the results only (and the final position), `tr.opsp` also `@position()` after every
+/// call: the position in the middle of the stream depends on whether the fast path swallowed the blank
+/// behind an unquoted value, which the property does not fix -- it is judged by an oracle, not compared
+/// with the model.
 /// ops: comma separated `n` (next), `r` (read), `b<k>` (read_bytes k), `N` / `R` (next / read until
 /// the end).  Every call prints its result followed by `@position()`.  Stops at the first clean
 /// end or error.
-fn exec<R: Read>(rd: &mut TokenReader<R>, ops: &str, limit: usize, out: &mut Vec<String>) {
+fn exec<R: Read>(rd: &mut TokenReader<R>, ops: &str, limit: usize, out: &mut Vec<String>, with_pos: bool) {
     let mut budget = limit;
     for op in ops.split(',') {
         if op.is_empty() || op == "-" {
@@ -64,7 +68,11 @@ fn exec<R: Read>(rd: &mut TokenReader<R>, ops: &str, limit: usize, out: &mut Vec
                     }
                 }
             };
-            out.push(format!("{}@{}", item, rd.position()));
+            if with_pos {
+                out.push(format!("{}@{}", item, rd.position()));
+            } else {
+                out.push(item);
+            }
             if stop {
                 return;
             }
@@ -90,14 +98,15 @@ pub fn dispatch(kind: &str, a: &[&str]) -> Option<String> {
     let r = match (kind, a) {
         // tr.ops <mode> <cap> <sched> <hex> <ops>
         //   mode: slice | new | len | buf<fill byte>
-        ("tr.ops", [mode, cap, sched, h, ops]) => {
+        ("tr.ops", [mode, cap, sched, h, ops]) | ("tr.opsp", [mode, cap, sched, h, ops]) => {
+            let wp = kind == "tr.opsp";
             let d = unhex(h);
             let n = d.len();
             let limit = 2 * n + 8 + ops.len();
             let mut out = Vec::new();
             if *mode == "slice" {
                 let mut rd = TokenReader::from_slice(&d);
-                exec(&mut rd, ops, limit, &mut out);
+                exec(&mut rd, ops, limit, &mut out, wp);
                 let pos = rd.position();
                 let (buf, _) = rd.into_parts();
                 finish(&mut out, pos, buf, 0)
@@ -113,7 +122,7 @@ pub fn dispatch(kind: &str, a: &[&str]) -> Option<String> {
                 } else {
                     return Some("BADCASE".into());
                 };
-                exec(&mut rd, ops, limit, &mut out);
+                exec(&mut rd, ops, limit, &mut out, wp);
                 let pos = rd.position();
                 let (buf, src) = rd.into_parts();
                 finish(&mut out, pos, buf, src.delivered)
@@ -122,18 +131,19 @@ pub fn dispatch(kind: &str, a: &[&str]) -> Option<String> {
         // tr.opsrec <cap> <sched> <hex> <ops> <sched0> <hex0> <ops0>: a first reader with a fresh buffer of
         // <cap> bytes runs <ops0> over <hex0>; its buffer is taken back with into_parts() and given to the
         // reader under test (stale *real tokens* lie behind and in front of every window)
-        ("tr.opsrec", [cap, sched, h, ops, sched0, h0, ops0]) => {
+        ("tr.opsrec", [cap, sched, h, ops, sched0, h0, ops0]) | ("tr.opsrecp", [cap, sched, h, ops, sched0, h0, ops0]) => {
+            let wp = kind == "tr.opsrecp";
             let d0 = unhex(h0);
             let n0 = d0.len();
             let mut first = TokenReader::builder().buffer_len(p(cap)).build(SchedRead::new(d0, parse_sched(sched0)));
             let mut scratch = Vec::new();
-            exec(&mut first, ops0, 2 * n0 + 8 + ops0.len(), &mut scratch);
+            exec(&mut first, ops0, 2 * n0 + 8 + ops0.len(), &mut scratch, false);
             let (buf, _) = first.into_parts();
             let d = unhex(h);
             let n = d.len();
             let mut out = Vec::new();
             let mut rd = TokenReader::builder().buffer(buf).build(SchedRead::new(d, parse_sched(sched)));
-            exec(&mut rd, ops, 2 * n + 8 + ops.len(), &mut out);
+            exec(&mut rd, ops, 2 * n + 8 + ops.len(), &mut out, wp);
             let pos = rd.position();
             let (buf, src) = rd.into_parts();
             finish(&mut out, pos, buf, src.delivered)
